@@ -111,6 +111,54 @@ def enc_tcp_opts(opts):
   return o + b"\0" * ((4 - len(o) % 4) % 4)
 
 
+# Multipath TCP options (mirror of MpFields / OptView in PktWireLayers.tla; cross-checked against TLC's view of every
+# exported case by props/C14.py).  Used by the adapter to know which attributes a built option object gets, and to
+# name fields in failure signatures - never for a verdict.
+def _dss_lens(fl):
+  al = 0 if not fl & 1 else 8 if fl & 2 else 4
+  dl = 0 if not fl & 4 else 8 if fl & 8 else 4
+  return al, dl
+
+
+def mp_fields(d):
+  d = list(d)
+  if len(d) < 2:
+    return []
+  st, lo, n = d[0] >> 4, d[0] & 15, len(d) + 2
+  F = lambda name, v: {"n": name, "v": list(v)}
+  if st == 0 and n in (12, 20):
+    return ([F("subtype", [0]), F("version", [lo]), F("flags", [d[1]]), F("skey", d[2:10])]
+            + ([F("rkey", d[10:18])] if n == 20 else []))
+  if st == 1 and n in (12, 16, 24):
+    h = [F("subtype", [1]), F("flags", [lo]), F("addr", [d[1]])]
+    if n == 12:
+      return h + [F("rtoken", d[2:6]), F("srand", d[6:10])]
+    if n == 16:
+      return h + [F("shmac", d[2:10]), F("srand", d[10:14])]
+    return h + [F("shmac", d[2:22])]
+  if st == 2 and lo == 0:
+    fl = d[1]
+    al, dl = _dss_lens(fl)
+    if (fl & 2 and not fl & 1) or (fl & 8 and not fl & 4) or n != 4 + al + dl + (8 if fl & 4 else 0):
+      return []
+    out = [F("subtype", [2]), F("flags", [fl])]
+    if al:
+      out.append(F("ack", [0] * (8 - al) + d[2:2 + al]))
+    if dl:
+      q = 2 + al + dl
+      out += [F("dsn", [0] * (8 - dl) + d[2 + al:q]), F("seq", d[q:q + 4]), F("length", d[q + 4:q + 6]),
+              F("csum", d[q + 6:q + 8])]
+    return out
+  return []
+
+
+def opt_view(x):
+  if "f" in x:
+    return x
+  f = mp_fields(x["d"]) if x["k"] == 30 else []
+  return {"k": x["k"], "d": [] if f else list(x["d"]), "f": f}
+
+
 def enc_tlvs(tlvs):
   o = b""
   for x in tlvs:
